@@ -982,6 +982,18 @@ func runOBL(w *World, only func(rel string) bool) []Ob {
 							}
 						}
 					}
+					// a helper only ever called on a regexp match inherits the minimal length of the match
+					if fi := w.Funcs[obj]; fi != nil {
+						for _, prm := range d.Type.Params.List {
+							for _, nm := range prm.Names {
+								if b, ok := p.TypesInfo.TypeOf(nm).Underlying().(*types.Basic); ok && b.Kind() == types.String {
+									if pat, ok := paramRegexpOrigin(w, fi, p.TypesInfo.Defs[nm]); ok {
+										c.facts = append(c.facts, fact{lenOf: nm.Name, min: minMatchLen(pat)})
+									}
+								}
+							}
+						}
+					}
 					c.walkBlock(d.Body)
 				case *ast.GenDecl:
 					c := &oblCtx{w: w, pkg: p, fname: rel + ".<package-level>", out: &out, commaOk: map[ast.Node]bool{}}
